@@ -809,6 +809,44 @@ func phaseB(l *Loaded, res *HarnessResult, names []string, traces [][]*ThreadTra
 						discharged("open-once/" + comboKey + f)
 					}
 				}
+				// File lifecycle under concurrency (C05 clauses that need a schedule):
+				// Close at most once per File, no call on a File after its Close
+				// (Files of the common start state only: they have distinct ids)
+				if params["no_lifecycle"] != 1 {
+					closes := map[string][]bInterval{}
+					for _, iv := range ivs {
+						if iv.op == "Close" && iv.file != "" && iv.file != "1000" {
+							closes[iv.file] = append(closes[iv.file], iv)
+						}
+					}
+					for f, cl := range closes {
+						if len(cl) > 1 {
+							addViol("close-twice", "File "+f+" ("+cl[0].path+") is closed "+strconv.Itoa(len(cl))+" times in one consistent interleaving", c.witness(solver))
+						} else {
+							discharged("close-once/" + comboKey + "/" + f)
+						}
+						for _, iv := range ivs {
+							if iv.file != f || iv.op == "Close" || cl[0].exit < 0 {
+								continue
+							}
+							after := []*Term{c.lt(c.ts(cl[0].thread, cl[0].exit), c.ts(iv.thread, iv.enter))}
+							if iv.thread == cl[0].thread {
+								if iv.enter > cl[0].exit {
+									addViol("use-after-close", iv.op+" on File "+f+" after its Close (same request)", c.witness(solver))
+								}
+								continue
+							}
+							switch c.check(solver, after...) {
+							case Sat:
+								addViol("use-after-close", iv.op+" on File "+f+" ("+iv.path+") can start after the File was closed", c.witness(solver, after...))
+							case Unsat:
+								discharged("no-use-after-close/" + comboKey + "/" + f + "/" + iv.op)
+							default:
+								res.Unknown++
+							}
+						}
+					}
+				}
 				// isolation (C16): threads declared disjoint observe what they observe alone
 				if res.Reached["disjoint-pair"] > 0 && res.soloReplies != nil {
 					for i, t := range c.tr {
